@@ -70,7 +70,7 @@ CHECKS["C16"] = dict(
     "version/locktime, and - when signed - every input under independent legacy and BIP143 signature hashes for all six sighash flags with a template-level validator. Under an injected RPC fault the call may raise but must never return a transaction; a send whose amount is below the fee must be refused. "
     "A further stratum runs 2-3 simulated send_tx callers with different keys concurrently under the baton scheduler; every run starts from a freshly imported package.",
     design_ref="DESIGN.md §4.4, §5 C16, §9.7",
-    note="Trusted: /verif/ref/txref.py (pinned to the BIP143 example transactions, all six hashtypes), /verif/ref/addr.py, /verif/ref/secp256k1.py. The fake node implements scantxoutset only; validator is template-level, not a script interpreter. Two open known findings (D12, D14) are matched by feature; a clean stratum (single input at vout 0, SIGHASH_ALL, v1, locktime 0, exact amounts) must produce no finding at all.",
+    note="Trusted: /verif/ref/txref.py (pinned to the BIP143 example transactions, all six hashtypes), /verif/ref/addr.py, /verif/ref/secp256k1.py. The fake node implements scantxoutset only; validator is template-level, not a script interpreter. One open known finding (D14: raw-script recipient / change, bare-multisig sender without change address are refused) is matched by feature; a clean stratum (single input at vout 0, SIGHASH_ALL, v1, locktime 0, exact amounts) must produce no finding at all.",
     technique="deterministic simulation of the remote party (in-process bitcoind + ledger behind the RPC seam, injected RPC faults, scripted entropy) with conservation and signature-validity invariants over send histories",
 )
 
